@@ -37,6 +37,57 @@ Theorem c10_exit_code_unknown_fail_level :
 Proof. exact exit_code_other_level. Qed.
 Print Assumptions c10_exit_code_unknown_fail_level.
 
+(* ---------------------------------------------------------------- delivery of the report
+   (Model/Exit.v: lint_fn = lint() of cmd/lint.go with the results of opening the output channel and
+   of the reporter's writes as oracles; file_after = --output-file through getWriterForOutputFile) *)
+
+(* failure to deliver the report is a failure of linting: whatever was found and whatever the fail
+   level, the status is 1 when the output channel cannot be opened or a write of the reporter fails *)
+Theorem c10_exit_code_delivery_failed :
+  forall (fail_level : str) (open_res : io_result) (o : lint_outcome) (publish_res : io_result),
+  open_res = IoErr \/ publish_res = IoErr ->
+  run_exit fail_level open_res o publish_res = 1.
+Proof. exact run_exit_delivery_failed. Qed.
+Print Assumptions c10_exit_code_delivery_failed.
+
+(* and these are, with an error of the linter itself, the only ways to status 1; a delivered report
+   gives the status of [c10_exit_code_spec] *)
+Theorem c10_exit_code_one_iff_not_delivered :
+  forall (fail_level : str) (open_res : io_result) (o : lint_outcome) (publish_res : io_result),
+  fail_level = L_ERROR \/ fail_level = L_WARNING ->
+  (run_exit fail_level open_res o publish_res = 1 <->
+   open_res = IoErr \/ o = LintErr \/ publish_res = IoErr).
+Proof. exact run_exit_one_iff. Qed.
+Print Assumptions c10_exit_code_one_iff_not_delivered.
+
+Theorem c10_exit_code_delivered :
+  forall (fail_level : str) (r : report),
+  run_exit fail_level IoOk (Linted r) IoOk = exit_code fail_level (LintDone r).
+Proof. exact run_exit_delivered. Qed.
+Print Assumptions c10_exit_code_delivered.
+
+(* after a successful run the output file holds the rendering of THIS run's report and nothing
+   else, whatever the file held before (no file, a shorter, a longer or an unrelated content) *)
+Theorem c10_output_file_is_this_runs_rendering :
+  forall (prev : option str) (rendering : str), file_after prev rendering = rendering.
+Proof. exact file_after_is_rendering. Qed.
+Print Assumptions c10_output_file_is_this_runs_rendering.
+
+(* why the truncation is needed (regression for the class "output file opened without O_TRUNC"):
+   a shorter rendering written over a longer previous content leaves the old tail; runs whose
+   rendering is at least as long as the previous content cannot tell the difference *)
+Theorem c10_output_file_without_truncation_refuted :
+  exists (prev : option str) (rendering : str), file_after_keeping prev rendering <> rendering.
+Proof. exists (Some [111; 108; 100; 32; 116; 97; 105; 108]), [110; 101; 119]. vm_compute. discriminate. Qed.
+Print Assumptions c10_output_file_without_truncation_refuted.
+
+Theorem c10_output_file_without_truncation_partial :
+  forall (prev : option str) (rendering : str),
+  (List.length (match prev with Some s => s | None => [] end) <= List.length rendering)%nat ->
+  file_after_keeping prev rendering = rendering.
+Proof. exact file_after_keeping_ok_when_not_shorter. Qed.
+Print Assumptions c10_output_file_without_truncation_partial.
+
 (* ---------------------------------------------------------------- pretty (festive = pretty) *)
 
 (* every violation once, in report order, with file, position, rule and level — for every cut
@@ -235,6 +286,14 @@ Example c10_exit_codes :
   exit_code L_WARNING (LintDone (mk_report [mk_violation (lit "t") L_WARNING (lit "a") 1 1])) = 2 /\
   exit_code L_ERROR (LintDone (mk_report [mk_violation (lit "t") L_WARNING (lit "a") 1 1])) = 0 /\
   exit_code L_WARNING LintFailed = 1.
+Proof. repeat split. Qed.
+
+Example c10_delivery_examples :
+  run_exit L_ERROR IoOk (Linted ex_report) IoErr = 1 /\
+  run_exit L_ERROR IoErr (Linted ex_report) IoOk = 1 /\
+  run_exit L_ERROR IoOk (Linted ex_report) IoOk = 3 /\
+  file_after (Some (lit "a longer previous report")) (lit "short") = lit "short" /\
+  file_after_keeping (Some (lit "a longer previous report")) (lit "short") = lit "shortger previous report".
 Proof. repeat split. Qed.
 
 Example c10_cut_example :
